@@ -1035,13 +1035,19 @@ func valueLit(rng *rand.Rand, rsize uint8) string {
 			v &= 0xff
 		}
 	}
-	switch rng.IntN(5) {
+	switch rng.IntN(8) {
 	case 0:
 		return fmt.Sprintf("0x%x", v)
 	case 1:
 		return fmt.Sprintf("0b%b", v)
 	case 2:
 		return fmt.Sprintf("0d%d", v)
+	case 3:
+		return fmt.Sprintf("0%d", v) // zero-padded decimal (what a %03d rule generator writes): still decimal
+	case 4:
+		return fmt.Sprintf("00%d", v)
+	case 5:
+		return fmt.Sprintf("0x%X", v)
 	}
 	return fmt.Sprint(v)
 }
